@@ -11,6 +11,7 @@ BINS=$(jq -r '.checks[].property_id' "$ROOT/MANIFEST.json" | tr 'A-Z' 'a-z' | se
 cargo build --offline --release -p checks $BINS 2>&1 | tail -3
 # packages with their own feature sets: separate invocations (no feature unification)
 cargo build --offline --release -p c01cap 2>&1 | tail -1
+cargo build --offline --release -p c01cap2 2>&1 | tail -1
 cargo build --offline --release -p c18log 2>&1 | tail -1
 if [ -x "$ROOT/harness/extra/setup.sh" ]; then "$ROOT/harness/extra/setup.sh"; fi
 echo "setup done"
